@@ -24,7 +24,7 @@ EVIDENCE = {
         "REMOTE_PORT, SERVER_PORT, SERVER_SOFTWARE, REQUEST_URI, wsgi.* and waitress.* keys are not compared",
     ],
 }
-PREFIXES = ["", "/app", "/m0", "/a/b"]
+PREFIXES = ["", "/app", "/m0", "/a/b", "/m", "/m0/a", "/M0"]  # incl. prefixes that share leading characters with the path only
 CGI_SHADOW = [b"Remote-Addr", b"Server-Name", b"Server-Port", b"Request-Method", b"Path-Info", b"Script-Name",
               b"Query-String", b"Server-Protocol", b"Remote-Host", b"Http-Host", b"Wsgi.Input", b"Content-Length-X"]
 
@@ -47,6 +47,9 @@ def gen(W):
     sc["inbuf_overflow"] = W.choice([524288, 20000, 8193, 100, 10])
     sc["recv_bytes"] = W.choice([8192, 64, 5])
     sc["cut"] = W.draw(500)
+    # a second, plain request behind the first one: its environ must be its own
+    sc["follower"] = W.chance(0.4)
+    sc["cut2"] = W.draw(12)
     return sc
 
 
@@ -119,7 +122,14 @@ def run_one(tapes, tier, scenario=None):
     k.log("scenario", _h.sha256(repr(sorted(res.scenario.items(), key=str)).encode("utf-8", "backslashreplace")).hexdigest()[:16])
     raw = m["raw"]
     cut = sc["cut"] % max(1, len(raw))
-    steps = [("send", raw[:cut]), ("sleep", 0.0002), ("send", raw[cut:])] if cut else [("send", raw)]
+    follower = b"PUT /second/one?x=1 HTTP/1.1\r\nHost: second.example\r\nX-Second: yes\r\n\r\n" if sc.get("follower") else b""
+    if follower and not reqgen.base_must_close(m):
+        # the end of the first message is cut a few bytes before its last byte, the rest travels with the follower
+        c2 = max(1, len(raw) - 1 - sc.get("cut2", 0))
+        steps = [("send", raw[:c2]), ("sleep", 0.0002), ("send", raw[c2:] + follower)]
+    else:
+        follower = b""
+        steps = [("send", raw[:cut]), ("sleep", 0.0002), ("send", raw[cut:])] if cut else [("send", raw)]
     peer_addr = ("10.1.2.3", 50123)
     sim.add_client(steps, cid=0, addr="" if sc["unix"] else peer_addr)
     sim.run()
@@ -158,6 +168,18 @@ def run_one(tapes, tier, scenario=None):
                 res.v("body", feat + ":content_length", "CONTENT_LENGTH %r but wsgi.input yields %d bytes" % (env.get("CONTENT_LENGTH"), len(body or b"")))
         if "HTTP_TRANSFER_ENCODING" in env:
             res.v("environ", "transfer_encoding_visible", "HTTP_TRANSFER_ENCODING reached the application")
+    if follower and app.calls:
+        if len(app.calls) < 2:
+            res.v("follower", "not_delivered", "the request behind the first one did not reach the application (first: %r)" % (raw[:120],))
+        else:
+            e2 = app.calls[1]["environ"]
+            got2 = (e2.get("REQUEST_METHOD"), e2.get("PATH_INFO") if not sc["url_prefix"] else e2.get("REQUEST_URI"), e2.get("QUERY_STRING"), e2.get("HTTP_HOST"), e2.get("HTTP_X_SECOND"))
+            want2 = ("PUT", "/second/one" if not sc["url_prefix"] else "/second/one?x=1", "x=1", "second.example", "yes")
+            if got2 != want2:
+                res.v("follower", "wrong_environ", "the request behind the first one was delivered as %r, sent %r; first message ended %r" % (got2, want2, raw[-40:]))
+            alien = [kk for kk in e2 if kk.startswith("HTTP_") and kk not in ("HTTP_HOST", "HTTP_X_SECOND")]
+            if alien:
+                res.v("follower", "foreign_fields", "the second request's environ carries fields of the first: %r" % (alien,))
     if k.end_reason == "step_cap":
         res.harness_error = "step cap reached"
     if k.harness_error:
